@@ -82,7 +82,9 @@ def check(repo: Repo, run: Run) -> None:
     good_exit, bad_exit = [], []
     for kind, pc, seq, lineno in lp.exits:
         inner = [c for c in pc[len(loop_pc):] if c not in test_conds]
-        if kind == "break" and len(inner) == 1 and streams.empty_test(inner[0][0], inner[0][1], reader) == raw:
+        # (`return` inside a generator that parse_v2 delegates to ends the record loop just like `break`)
+        if (kind == "break" or (kind == "return" and not lp.func.endswith("parse_v2"))) and len(inner) == 1 \
+                and streams.empty_test(inner[0][0], inner[0][1], reader) == raw:
             good_exit.append(lineno)
         else:
             bad_exit.append((kind, lineno, [sym.pretty(c)[:50] for c, _ in inner]))
@@ -175,7 +177,10 @@ def check(repo: Repo, run: Run) -> None:
         proc = ent.find("process") if ent.kind == "Struct" else None
         okp = proc is not None and proc.kind == "FixedSized" and proc.children and proc.children[0].kind == "CString"
         run.ob("R3", MOD, "kd_threadmap", "name is a NUL-terminated string inside its 20-byte field", okp,
-               "the process name is not a CString confined to its fixed 20-byte field", nontrivial=False)
+               "the process name is not a CString confined to its fixed 20-byte field"
+               + (": PaddedString keeps everything up to the trailing NUL fill, so bytes left behind the terminator by an earlier, "
+                  "longer name become part of the name" if proc is not None and proc.kind == "PaddedString" else ""),
+               witness="a thread-map entry whose 20-byte field holds b'sh\\0kboardd\\0...': the name must be 'sh'")
 
     # ------------------------------------------------------------------ R4 tables
     hp = T("call", (T("attr", (T("global", (f"{MOD}.kd_header_v2",)), "parse_stream")), (reader,), ()))
